@@ -437,6 +437,8 @@ int main(int argc, char **argv)
         {"skipped_known_crash", static_cast<long>(g_shm->skipped_known_crash)},
         {"alt_took_unchanged", static_cast<long>(g_shm->alt_counts[0])},
         {"alt_took_released", static_cast<long>(g_shm->alt_counts[1])},
+        {"emplace_threw_valueless", static_cast<long>(g_shm->band_valueless)},
+        {"emplace_threw_kept", static_cast<long>(g_shm->band_kept)},
         {"forks", forks},
         {"crashes", crashes}});
   return 0;
